@@ -2,7 +2,7 @@
    Print Assumptions. *)
 From Coq Require Import ZArith NArith List Bool Sorted.
 From Centro Require Import Base.GraphC15 Model.LabelGraph Spec.LabelGraph
-  Proofs.ColorC15 Proofs.DfsC15 Proofs.EulerC15 Proofs.RelabelC15.
+  Proofs.ColorC15 Proofs.DfsC15 Proofs.AccC15 Proofs.EulerC15 Proofs.RelabelC15.
 Import ListNotations.
 
 (* ---- all_connected_components / _all_connected_components (Full, including termination) ----
@@ -21,6 +21,21 @@ Theorem C15_dfs_partition : forall cnt nbr n fuel,
     (forall k, (k < c)%N -> exists v, (v < N.of_nat n)%N /\ mget lb v = Some k).
 Proof. exact dfs_all_spec. Qed.
 Print Assumptions C15_dfs_partition.
+
+(* ---- all_connected_components on edge lists (Full, including termination) ----
+   For every pair of equally long, non-empty vertex lists i, j (self-loops, duplicates, isolated
+   vertices below the maximum, any order): the model (symmetrise, lexsort, bincount, cumsum,
+   explicit-stack kernel) returns one label per vertex 0..max; two vertices carry the same label
+   exactly when they are connected in the undirected edge list; the labels are 0..c-1, all used. *)
+Theorem C15_all_connected_components_spec : forall i j : list N, length i = length j -> i <> [] ->
+  let n := S (N.to_nat (list_maxN (i ++ j))) in
+  exists labels c, all_connected_components i j = Some labels /\ length labels = n /\
+    (forall u w, (u < n)%nat -> (w < n)%nat ->
+       (nth u labels 0%N = nth w labels 0%N <-> uconn (combine i j) (N.of_nat u) (N.of_nat w))) /\
+    (forall v, (v < n)%nat -> (nth v labels 0 < c)%N) /\
+    (forall k, (k < c)%N -> exists v, (v < n)%nat /\ nth v labels 0%N = k).
+Proof. exact all_connected_components_spec. Qed.
+Print Assumptions C15_all_connected_components_spec.
 
 Open Scope Z_scope.
 (* ---- relabel (Full): the output is the input mapped through a function that fixes the
